@@ -15,7 +15,7 @@ use crate::position::{
 use crate::text::process_text_attr;
 use crate::transform_attr::TransformAttr;
 use crate::types::{
-    attr_split, attr_split_cycle, extract_elref, fstr, strp, AttrMap, ClassList, OrderIndex,
+    attr_split, attr_split_cycle, extract_elref, fstr, href_elref, strp, AttrMap, ClassList, OrderIndex,
 };
 
 use core::fmt::Display;
@@ -390,16 +390,18 @@ impl SvgElement {
                 .get_attr("href")
                 .or_else(|| self.get_attr("xlink:href"))
             {
-                let elref = href.parse()?;
-                let el = ctx
-                    .get_element(&elref)
-                    .ok_or_else(|| SvgdxError::ReferenceError(elref))?;
-                if let Some(sz) = ctx.get_element_size(el)? {
-                    p.update_size(&sz);
-                    if el.name == "circle" || el.name == "ellipse" {
-                        // The referenced element is defined by its center,
-                        // but use elements are defined by top-left pos.
-                        p.translate(sz.0 / 4., sz.1 / 4.);
+                // (anything but a reference to an element of this document is passed through)
+                if let Some(elref) = href_elref(&href) {
+                    let el = ctx
+                        .get_element(&elref)
+                        .ok_or_else(|| SvgdxError::ReferenceError(elref))?;
+                    if let Some(sz) = ctx.get_element_size(el)? {
+                        p.update_size(&sz);
+                        if el.name == "circle" || el.name == "ellipse" {
+                            // The referenced element is defined by its center,
+                            // but use elements are defined by top-left pos.
+                            p.translate(sz.0 / 4., sz.1 / 4.);
+                        }
                     }
                 }
             }
@@ -721,7 +723,13 @@ impl SvgElement {
                 .get_attr("href")
                 .or_else(|| element.get_attr("xlink:href"))
                 .ok_or_else(|| SvgdxError::MissingAttribute("href".to_owned()))?;
-            let elref = href.parse()?;
+            let Some(elref) = (match element.name.as_str() {
+                "use" => href_elref(&href),
+                _ => Some(href.parse()?),
+            }) else {
+                // a `use` of something outside this document stands for itself
+                break;
+            };
             if let Some(el) = ctx.get_element(&elref) {
                 let key = (el.order_index.clone(), el.get_attr("id"));
                 if seen.contains(&key) {
@@ -771,9 +779,11 @@ impl SvgElement {
                 // target's context to determine size.
                 // let mut target_el = target_el.clone();
                 // target_el.eval_attributes(ctx)?;
-                if let Some(sz) = target_el.size(ctx)? {
-                    width = Some(sz.0);
-                    height = Some(sz.1);
+                if !matches!(target_el.name.as_str(), "use" | "reuse") {
+                    if let Some(sz) = target_el.size(ctx)? {
+                        width = Some(sz.0);
+                        height = Some(sz.1);
+                    }
                 }
             }
             "g" | "symbol" => {
